@@ -255,10 +255,11 @@ def run_shard(spec, seed, res, only_bucket=None):
 
 
 def replay(case):
+    logging.getLogger("sqlglot").setLevel(logging.CRITICAL)
     if "text" in case:
         f, _ = run_one(case["text"], case["dialect"], case.get("other", ""), case["level"], True)
         return [(("strict|" if case.get("strict") else "garbage|") + b, d) for b, d in f]
     return check_case(case, None)
 
 
-MIN_CLASSES = {"quick": {"class:V": 1500, "class:M": 5000, "class:K": 1500, "class:U": 1500, "class:S": 1500, "raised": 4000, "incomplete-tree": 300, "work-counted": 4000}}
+MIN_CLASSES = {"quick": {"class:V": 1500, "class:M": 5000, "class:K": 1500, "class:U": 700, "class:S": 1500, "raised": 4000, "incomplete-tree": 300, "work-counted": 4000}}
